@@ -21,6 +21,7 @@
    whose parent path does not resolve to an object does nothing). *)
 From Fiddle Require Import PyBase PySlice Sig ArgStore PyCall Heap Traverse Tags History Diff
   Diff_proofs.
+From Fiddle Require Import AnchorsDiff.
 From Coq Require Import List Permutation.
 Import ListNotations.
 Local Open Scope nat_scope.
